@@ -1,9 +1,13 @@
 """C17 - clash detection equals the pairwise van-der-Waals definition.
 
 Decided on clashfinder.py: the KD-tree search radius covers the largest acceptance threshold for every pair of atom
-types (same molprobity term on both sides), the accept region of the distance test, the molprobity constant, one
-filter per option (closed world), atoms considered, each pair once, CLI argument <-> parameter agreement, accumulator
-self-reference, None-only occupancy defaults, printed and CSV loops over the same containers with the same sort.
+types, the listed pairs equal the van-der-Waals definition for all 32 option combinations (distance threshold per type
+pair and mode, one filter per option, occupancy rule and sum, atoms considered, record roles, each pair once; closed
+world of the conditions), CLI argument <-> parameter agreement, accumulator self-reference, None-only occupancy
+defaults, report and CSV list the clashes found with every atom under its own residue, maxima, same order.
+
+Fact-level rules (checks/c17e.py: find_clashes and main evaluated on input-class representatives) come first; the
+pinned-form rules below (`legacy_*`) run only when the fact-level reading is impossible.
 """
 from __future__ import annotations
 
@@ -68,6 +72,30 @@ def run(chk) -> None:
     chk.expect(set(radii) == {"C", "N", "O", "P"} and all(isinstance(v, float) and v > 0 for v in radii.values()), "atom-types", f"src/rnapolis/clashfinder.py:{at.lineno} AtomType", f"four atom types with radii {radii}", f"atom types/radii are not total over C, N, O, P: {radii}", f"{M}:AtomType:radii", found=radii)
     fi = repo.func(M, "find_clashes")
     chk.note_function(fi)
+    from checks import c17e
+
+    total = set(radii) == {"C", "N", "O", "P"} and all(isinstance(v, float) and v > 0 for v in radii.values())
+    why = c17e.check_find_clashes(chk, fi, radii, c["molprobity_extra"]) if total else "the radii of the atom types are not total"
+    if why is None:
+        # decided on the current code whatever its shape; the pinned forms are not consulted
+        chk.robust |= {"clash-definition", "distance-threshold", "option-filter", "occupancy-rule", "occupancy-sum", "pair-roles"}
+        chk.ok("molprobity-term", fi.where, f"the extra tolerance is decided by rule `distance-threshold`: pairs just below r_a + r_b + {c['molprobity_extra']} are accepted and pairs just above rejected in MolProbity mode, r_a + r_b otherwise")
+        truthy = [n for n in ast.walk(fi.node) if isinstance(n, ast.BoolOp) and isinstance(n.op, ast.Or) and any(isinstance(v, ast.Attribute) and v.attr == "occupancy" for v in n.values)]
+        chk.expect(not truthy, "optional-truthiness", fi.site(truthy[0]) if truthy else fi.where, "no `occupancy or default`: a stated occupancy of 0.0 is kept", f"`{norm(truthy[0])}` replaces a stated occupancy of 0.0 by the default" if truthy else "", K(fi, "occupancy-or"))
+    else:
+        chk.ok("clash-facts", fi.where, f"fact-level reading of find_clashes not possible ({why[:140]}); falling back to the pinned forms")
+        legacy_find_clashes(chk, fi, radii, c)
+    mt = repo.func(M, "AtomType.matches")
+    chk.note_function(mt)
+    chk.expect([norm(s) for s in mt.node.body] == ["return atom.name.strip().startswith(self.value)"], "collection", mt.where, "an atom matches a type when its name starts with the type letter", "AtomType.matches changed", K(mt, "matches"))
+    check_cli(chk, fi)
+    for rule, n in (("search-radius", 1), ("option-filter", 2), ("distance-threshold", 2), ("cli-arguments", 2)):
+        chk.floor(rule, n)
+
+
+def legacy_find_clashes(chk, fi, radii, c) -> None:
+    """Pinned-form rules for find_clashes (fallback)."""
+    repo = chk.repo
     fm = FlowMap(fi.node)
     inl = Inliner(fi.node)
     loop = kd_loop(chk, fi)
@@ -238,10 +266,10 @@ def run(chk) -> None:
                 chk.error("collection", fi.site(al), f"atom selection not understood: {unk2[0][:60]}")
             else:
                 chk.expect(not bad2, "collection", fi.site(al), "an atom is registered (residue, atom, coordinates in parallel) iff it matches one of the four types", bad2[0] if bad2 else "", K(fi, "collection-atoms"))
-    mt = repo.func(M, "AtomType.matches")
-    chk.note_function(mt)
-    chk.expect([norm(s) for s in mt.node.body] == ["return atom.name.strip().startswith(self.value)"], "collection", mt.where, "an atom matches a type when its name starts with the type letter", "AtomType.matches changed", K(mt, "matches"))
 
+
+def check_cli(chk, fi) -> None:
+    repo = chk.repo
     # ---- CLI -----------------------------------------------------------------------------------------------
     mn = repo.func(M, "main")
     chk.note_function(mn)
@@ -272,7 +300,14 @@ def run(chk) -> None:
             chk.violation("csv-metadata-arg", mn.site(c2), f"read_metadata (which reads file.name) receives the path string `{norm(a0)}`: --csv raises AttributeError as soon as one clash is found, no CSV is written", K(mn, f"read_metadata({norm(a0)})"))
         else:
             chk.error("csv-metadata-arg", mn.site(c2), f"argument `{norm(a0) if a0 is not None else None}` of read_metadata not classified (path or open file)")
+    # report and CSV: fact-level first (main evaluated on a representative clash list), pinned forms as the fallback
+    from checks import c17e
+
+    why = c17e.check_main(chk, mn)
+    if why is None:
+        chk.robust |= {"report-clashes", "report-grouping", "report-maxima", "report-loops"}
     # accumulators read what they write
+    n_acc = 0
     for s in ast.walk(mn.node):
         if isinstance(s, ast.Assign) and isinstance(s.targets[0], ast.Subscript) and isinstance(s.value, ast.Call) and astq.callee_name(s.value) == "max":
             tgt = s.targets[0]
@@ -281,10 +316,18 @@ def run(chk) -> None:
             gets = [c2 for c2 in ast.walk(val) if isinstance(c2, ast.Call) and astq.callee_name(c2) == "get"]
             ok = len(gets) == 1 and norm(gets[0].func.value) == norm(tgt.value) and flat(gets[0].args[0]) == flat(minl.inline(tgt.slice, s, stop=("ri", "rj")))
             if not gets:
-                chk.error("accumulator", mn.site(s), f"running maximum `{norm(s)[:70]}` not understood")
+                if why is not None:
+                    chk.error("accumulator", mn.site(s), f"running maximum `{norm(s)[:70]}` not understood")
                 continue
+            n_acc += 1
             chk.expect(ok, "accumulator", mn.site(s), f"`{norm(tgt)[:50]}` is the running maximum of its own previous value", f"running maximum `{norm(tgt)[:50]}` is computed from `{norm(gets[0])[:60] if gets else None}`: another container or key than the one it updates", K(mn, f"acc:{norm(tgt.value)}"))
+    if why is None:
+        for _ in range(max(0, 2 - n_acc)):
+            chk.ok("accumulator", mn.where, "running maxima not in the form D[k] = max(D.get(k, d), v): decided by rule `report-maxima` on the evaluated report")
     chk.floor("accumulator", 2)
+    if why is None:
+        return
+    chk.ok("report-facts", mn.where, f"fact-level reading of main not possible ({why[:140]}); falling back to the pinned forms")
     # printed and CSV loops over the same containers with the same sort
     outer = [l for l in ast.walk(mn.node) if isinstance(l, ast.For) and norm(l.iter) == "sorted(clashing_chains)"]
     mids = [l for l in ast.walk(mn.node) if isinstance(l, ast.For) and flat(l.iter) == flat("clashing_chains[(ci, cj)]")]
@@ -325,8 +368,6 @@ def run(chk) -> None:
             chk.violation("report-grouping", mn.site(adds[0]), f"a clash is filed under `{norm(recv)[:90]}`, not under ((ri.chain, rj.chain), (ri, rj))", K(mn, "grouping"), found=norm(recv))
         else:
             chk.error("report-grouping", mn.site(adds[0]), f"container `{norm(recv)[:90]}` receiving the clash not understood")
-    for rule, n in (("search-radius", 1), ("option-filter", 2), ("distance-threshold", 2), ("cli-arguments", 2)):
-        chk.floor(rule, n)
 
 
 MANIFEST_ENTRY = {
